@@ -117,6 +117,11 @@ def build(r, name, repr_key, n, mask, fieldless, generics=None, style=None):
         prev = val
         vs.append(v)
     spec = EnumSpec(name=name, variants=vs, derives=["FromRepr"], repr=repr_key, generics=generics)
+    spec.attr_order_seed = r.choice([0, 1, 2, 3, 4, 5, 6])
+    if r.random() < 0.3:
+        spec.serialize_all = r.choice(["snake_case", "UPPERCASE"])   # an unrelated #[strum(..)] attribute next to #[repr]
+    if fieldless and generics is None and r.random() < 0.25:
+        spec.generics = "Nfree"     # field-less const-generic enum: from_repr must stay const
     if fieldless:
         spec.std_derives = ["Debug", "PartialEq", "Clone", "Copy"]
     if generics:
@@ -140,7 +145,7 @@ def glue(spec, thorough):
     nontrivial = any(v.disc or v.disabled for v in spec.variants)
     body = "".join("pub const %s: %s = %d;\n" % (nm, rty, val) for nm, val in getattr(spec, "consts", []))
     body += spec.render() + "\n"
-    if fieldless and spec.variants and not spec.generics:
+    if fieldless and spec.variants and spec.generics in (None, "Nfree"):
         # const-context observation
         ks = sorted({discs[0], discs[-1], min(hi, discs[-1] + 1)})
         for j, k in enumerate(ks):
@@ -152,7 +157,7 @@ def glue(spec, thorough):
     body += "    let table: &[(i128, usize, bool)] = &[%s];\n" % ", ".join("(%d, %d, %s)" % (d, i, "false" if v.disabled else "true") for i, (v, d) in enumerate(zip(spec.variants, discs)))
     body += "    let fr = |d: i128| -> Option<Option<%s>> { match R::try_from(d) { Ok(r) => Some(<%s>::from_repr(r)), Err(_) => None } };\n" % (ty, ty)
     truth = []
-    if fieldless and not spec.generics:
+    if fieldless and spec.generics in (None, "Nfree"):
         for i, v in enumerate(spec.variants):
             truth.append("(%d, (%s as R) as i128)" % (i, v.ctor(spec.path(), [])))
     elif spec.repr is not None:
@@ -160,7 +165,7 @@ def glue(spec, thorough):
             truth.append("(%d, { let val = %s; (unsafe { *(&val as *const %s as *const R) }) as i128 })" % (i, v.ctor(spec.path(), v.default_exprs()), ty))
     body += "    let truth: Vec<(usize, i128)> = vec![%s];\n" % ", ".join(truth)
     body += "    vmon::repr::check(m, &fr, &make, table, %d, %d, &truth, %s, %d);\n" % (lo, hi, "true" if nontrivial else "false", 6000 if thorough else 1500)
-    if fieldless and not spec.generics:
+    if fieldless and spec.generics in (None, "Nfree"):
         for i, v in enumerate(spec.variants):
             if not v.disabled:
                 body += "    m.expect_eq(\"repr/roundtrip\", \"from_repr(v as R)\", %s, &<%s>::from_repr(%s as R), &Some(%s), %s);\n" % (
@@ -191,14 +196,14 @@ def check(run):
     r = gen.rng_for(run.seed, "c06")
     reprs = list(REPRS.keys())
     tries = 0
-    want = 1600 if thorough else 260
+    want = 5000 if thorough else 800
     cnt16 = 0
     while len([s for s in specs if s.name.startswith("R")]) < want and tries < want * 20:
         tries += 1
         rk = r.choice(reprs)
         if rk in ("u16", "i16"):
             cnt16 += 1
-            if cnt16 > (400 if thorough else 50):
+            if cnt16 > (800 if thorough else 120):
                 continue
         n = r.choice([1, 2, 3, 4, 5, 6, 8, 12])
         mask = [r.random() < 0.25 for _ in range(n)]
